@@ -6,6 +6,8 @@ package pcache
 // absent. After a refresh the cache must serve, for every provider, exactly the record the server
 // sent, and nothing for the absent ones; lookups that miss are answered by the single-provider
 // endpoint (200 with the record, or 404) and an unknown provider must not be asked for twice.
+// Provider lists that contain a JSON null (20 further histories of three refreshes) must be served as if
+// the null were not there, also by the refreshes that follow.
 
 import (
 	"context"
@@ -25,10 +27,11 @@ import (
 )
 
 type verifC06Indexer struct {
-	mu    sync.Mutex
-	table map[peer.ID]*model.ProviderInfo
-	order []peer.ID
-	hits  map[string]int
+	nullAt int // >= 0: the provider list carries a JSON null at this position
+	mu     sync.Mutex
+	table  map[peer.ID]*model.ProviderInfo
+	order  []peer.ID
+	hits   map[string]int
 }
 
 func (x *verifC06Indexer) ServeHTTP(w http.ResponseWriter, r *http.Request) {
@@ -43,6 +46,13 @@ func (x *verifC06Indexer) ServeHTTP(w http.ResponseWriter, r *http.Request) {
 			if pi := x.table[id]; pi != nil {
 				list = append(list, pi)
 			}
+		}
+		if x.nullAt >= 0 {
+			k := x.nullAt
+			if k > len(list) {
+				k = len(list)
+			}
+			list = append(list[:k:k], append([]*model.ProviderInfo{nil}, list[k:]...)...)
 		}
 		data, _ := json.Marshal(list)
 		w.Header().Set("Content-Type", "application/json")
@@ -105,7 +115,7 @@ func TestVerifC06HTTPSource(t *testing.T) {
 		}
 		ids[i] = id
 	}
-	x := &verifC06Indexer{hits: map[string]int{}}
+	x := &verifC06Indexer{hits: map[string]int{}, nullAt: -1}
 	srv := httptest.NewServer(x)
 	defer srv.Close()
 	ctx := context.Background()
@@ -195,5 +205,69 @@ func TestVerifC06HTTPSource(t *testing.T) {
 			}
 		}
 	}
+	// a list that contains null entries: they are skipped, everything else is served as reported - also by
+	// the refreshes that follow (a first refresh sees version A of every provider, a second one version B
+	// with a null at each position in turn, a third one version B without null)
+	for _, tbl := range [][]int{{0, 7, 8}, {7, 7, 7}, {1, 8, 3}, {8, 8, 8}, {5, 2, 6}} {
+		for nullAt := 0; nullAt <= 3; nullAt++ {
+			label := fmt.Sprintf("shapes %v with null at %d", tbl, nullAt)
+			set := func(version int, na int) {
+				x.mu.Lock()
+				x.table = map[peer.ID]*model.ProviderInfo{}
+				x.order = ids[:3]
+				for i, sh := range tbl {
+					if sh != 8 {
+						x.table[ids[i]] = verifC06Shape(ids[i], ids[3], sh|1, i+10*version)
+					}
+				}
+				x.nullAt = na
+				x.mu.Unlock()
+			}
+			pc, err := New(WithSourceURL(srv.URL), WithPreload(false), WithRefreshInterval(0))
+			if err != nil {
+				t.Fatal(err)
+			}
+			for step, na := range []int{-1, nullAt, -1} {
+				version := 0
+				if step > 0 {
+					version = 1
+				}
+				set(version, na)
+				func() {
+					defer func() {
+						if r := recover(); r != nil {
+							t.Logf("%s: refresh %d panicked: %v", label, step, r)
+						}
+					}()
+					if err := pc.Refresh(ctx); err != nil {
+						t.Fatalf("%s: refresh %d: %v", label, step, err)
+					}
+				}()
+				if step == 0 {
+					continue
+				}
+				for i, sh := range tbl {
+					got, err := pc.Get(ctx, ids[i])
+					if err != nil {
+						t.Fatalf("%s: get: %v", label, err)
+					}
+					if sh == 8 {
+						if got != nil {
+							t.Fatalf("%s: refresh %d: provider %d served although not reported", label, step, i)
+						}
+						continue
+					}
+					want := verifC06Wire(t, x.table[ids[i]])
+					if got == nil || !reflect.DeepEqual(got, want) {
+						t.Fatalf("%s: after refresh %d provider %d is served as %+v, the indexer reports %+v", label, step, i, got, want)
+					}
+				}
+			}
+			cases++
+		}
+	}
+	x.mu.Lock()
+	x.nullAt = -1
+	x.mu.Unlock()
 	fmt.Fprintf(os.Stdout, "CASES %d\n", cases)
 }
